@@ -2,6 +2,7 @@ SPECIFICATION Spec
 CONSTANTS Desc = {1, 2}
   OnCancel = "kill-child"
   ReapedGroupKill = TRUE
+  StaleWaited = FALSE
   TermThenWait = FALSE
   GroupWhenTranslated = TRUE
   WaitDelay = FALSE
